@@ -151,6 +151,10 @@ func (c *FnVC) staticCall(x *ssa.Call, f *ssa.Function, args []ssa.Value) {
 
 // applyContract: assert requires, havoc modifies, assume ensures.
 func (c *FnVC) applyContract(x *ssa.Call, ct *Contract, f *ssa.Function, sig *types.Signature, recvName string, args []string, atys []types.Type, name string) {
+	if v := ct.forCall(); v != ct {
+		ct = v
+		c.trustedUsed["assumed frame for callers of "+name+" (its own contract says modifies all)"] = true
+	}
 	env := map[string]envVal{}
 	// parameter names
 	var pnames []string
